@@ -5,7 +5,7 @@
 From Coq Require Import ZArith List Bool Reals.
 From Flocq Require Import Core.Core IEEE754.BinarySingleNaN.
 From GV Require Import Base.CSem Base.F32 Gen.MetricPyx Spec.Jaccard Spec.JaccardF Model.MetricPy
-  Proofs.C02 Proofs.C15.
+  Proofs.C02 Proofs.MetricTriangle Proofs.C15.
 Import ListNotations.
 Open Scope Z_scope.
 
@@ -49,3 +49,38 @@ Theorem C15_small_k : forall k A B,
   union_count A B <= 16777216.
 Proof. exact C15_small_k_l. Qed.
 Print Assumptions C15_small_k.
+
+(** triangle inequality up to single-precision rounding (three roundings, each <= 2^-24) *)
+Theorem C15_triangle : forall fuel A B C dAB dBC dAC,
+  sorted A -> sorted B -> sorted C ->
+  (length A + length B <= fuel)%nat -> (length B + length C <= fuel)%nat -> (length A + length C <= fuel)%nat ->
+  union_count A B <= 16777216 -> union_count B C <= 16777216 -> union_count A C <= 16777216 ->
+  jaccarddist fuel A B = Ok dAB -> jaccarddist fuel B C = Ok dBC -> jaccarddist fuel A C = Ok dAC ->
+  (B2R dAC <= B2R dAB + B2R dBC + bpow radix2 (-22))%R.
+Proof. exact C15_triangle_l. Qed.
+Print Assumptions C15_triangle.
+
+(** the exact (unrounded) distances satisfy the triangle inequality with no slack, for all sizes *)
+Theorem C15_triangle_exact : forall A B C, sorted A -> sorted B -> sorted C ->
+  (IZR (symdiff_count A C) / IZR (union_count A C) <=
+   IZR (symdiff_count A B) / IZR (union_count A B) + IZR (symdiff_count B C) / IZR (union_count B C))%R.
+Proof. exact triangle_ratio. Qed.
+Print Assumptions C15_triangle_exact.
+
+(** PARTIAL: the property says the reported distance strictly decreases; proved here: the exact ratio
+    strictly decreases and the reported binary32 value does not increase.  Strictness of the binary32
+    value needs |A u B| + 1 < 2^23 (known finding C15-f1 beyond) and is explored, not proved. *)
+Theorem C15_add_common_partial : forall fuel x A B d d',
+  sorted A -> sorted B -> ~ In x A -> ~ In x B -> A <> B ->
+  (length A + length B + 2 <= fuel)%nat -> union_count A B < 16777216 ->
+  jaccarddist fuel A B = Ok d ->
+  jaccarddist fuel (insert_sorted x A) (insert_sorted x B) = Ok d' ->
+  sorted (insert_sorted x A) /\ sorted (insert_sorted x B) /\
+  (forall y, In y (insert_sorted x A) <-> y = x \/ In y A) /\
+  (forall y, In y (insert_sorted x B) <-> y = x \/ In y B) /\
+  (IZR (symdiff_count (insert_sorted x A) (insert_sorted x B))
+     / IZR (union_count (insert_sorted x A) (insert_sorted x B))
+   < IZR (symdiff_count A B) / IZR (union_count A B))%R /\
+  (B2R d' <= B2R d)%R.
+Proof. exact C15_add_common_partial_l. Qed.
+Print Assumptions C15_add_common_partial.
